@@ -80,6 +80,10 @@ func c16RunQueue(sc c16Queue) (vs []ev.V) {
 		vs = append(vs, ev.Vf("queue:retry-decision:"+shape, "%s: retried=%v, but the failure is temporary=%v specified=%v by the reference classification", desc, retried, temp, spec))
 	}
 	raw := string(h.Reports[0].Raw)
+	if sc.Err.Kind == "gosmtp" {
+		// a bare downstream reply carries its own code and text; whether the text is passed on is not asserted
+		return vs
+	}
 	if sc.Err.Annotated() == nil && !strings.Contains(g.Diag, "Internal server error") {
 		vs = append(vs, ev.Vf("queue:unannotated-text", "%s: Diagnostic-Code %q is not the generic text", desc, g.Diag))
 	}
@@ -107,7 +111,7 @@ func TestVerifC16Queue(t *testing.T) {
 	qT = t
 	r := ev.Get("C16")
 	ev.Run(t, r, ev.Spec[c16Queue]{Name: "queue", N: r.N, Gen: func(t *rapid.T) c16Queue {
-		return c16Queue{Err: verifx.GenErr(t, rapid.IntRange(1, 4).Draw(t, "depth")),
+		return c16Queue{Err: verifx.GenErrDownstream(t, rapid.IntRange(1, 4).Draw(t, "depth")),
 			Stage: rapid.SampledFrom([]string{"start", "rcpt", "body", "status", "commit"}).Draw(t, "stage"), UTF8: rapid.Bool().Draw(t, "utf8")}
 	}, Run: c16RunQueue, Info: func(sc c16Queue) ev.Info {
 		re := false
